@@ -17,7 +17,7 @@ use std::collections::BTreeMap;
 pub fn meta() -> Meta {
     Meta {
         level: "model_checking",
-        rule: "every well-formed history of at most L operations over {declare int x, declare const x, declare qubit x, use x, assign x, gate-call x, open if / else / while / for x / case / default / gate(x) / def(x), close} for x in a two-name pool (four pools: user names; pi and the library gate h; the built-in gate U; non-ASCII names), rendered as a program and analysed by the real front end; every symbol reference of the graph is compared with the reference scope stack; states = distinct reference scope stacks reached, transitions = distinct (state, operation) pairs, traces = histories executed; a history is non-trivial when some use resolves through at least two open scopes or to a shadowing declaration, or is a duplicate declaration",
+        rule: "every well-formed history of at most L operations over {declare int x, declare const x, declare qubit x, declare int x = y, use x, assign x, gate-call x, open if / else / while / for x / case / default / gate(x) / def(x), close} for x in a two-name pool (four pools: user names; pi and the library gate h; the built-in gate U; non-ASCII names), rendered as a program and analysed by the real front end; every symbol reference of the graph is compared with the reference scope stack; states = distinct reference scope stacks reached, transitions = distinct (state, operation) pairs, traces = histories executed; a history is non-trivial when some use resolves through at least two open scopes or to a shadowing declaration, or is a duplicate declaration",
         assumptions: vec![
             "the generator never redeclares a for-loop variable directly in its own loop body and never uses a gate/subroutine name inside its own body (the statement does not fix these cases); gate/def parameters and body are one scope",
             "hook oq3_verif: scope depth accessor",
@@ -30,6 +30,8 @@ pub enum Op {
     DeclInt(u8),
     DeclConst(u8),
     DeclQubit(u8),
+    /// `int x = y;` — the initializer is a use that precedes the binding of x
+    DeclInit(u8, u8),
     Use(u8),
     Assign(u8),
     CallGate(u8),
@@ -44,7 +46,7 @@ pub enum Op {
     Close,
 }
 
-pub const OPS: [Op; 21] = [
+pub const OPS: [Op; 24] = [
     Op::DeclInt(0),
     Op::DeclInt(1),
     Op::DeclConst(0),
@@ -63,18 +65,22 @@ pub const OPS: [Op; 21] = [
     Op::Gate(0),
     Op::Def(1),
     Op::Close,
+    Op::DeclInit(0, 0),
+    Op::DeclInit(0, 1),
+    Op::DeclInit(1, 0),
     Op::DeclConst(1),
     Op::CallGate(0),
     Op::Assign(1),
 ];
-/// the first 18 operations are the quick alphabet; the thorough tier uses all 21
-pub const N_QUICK_OPS: usize = 18;
+/// the first 21 operations are the quick alphabet; the thorough tier uses all 24
+pub const N_QUICK_OPS: usize = 21;
 
 fn op_name(op: Op, names: &[&str; 2]) -> String {
     match op {
         Op::DeclInt(n) => format!("int:{}", names[n as usize]),
         Op::DeclConst(n) => format!("const:{}", names[n as usize]),
         Op::DeclQubit(n) => format!("qubit:{}", names[n as usize]),
+        Op::DeclInit(n, m) => format!("int:{}={}", names[n as usize], names[m as usize]),
         Op::Use(n) => format!("use:{}", names[n as usize]),
         Op::Assign(n) => format!("assign:{}", names[n as usize]),
         Op::CallGate(n) => format!("call:{}", names[n as usize]),
@@ -213,6 +219,23 @@ pub fn render(hist: &[Op], family: usize) -> Option<Rendered> {
                     _ => ("qubit ", ";\n"),
                 };
                 decl(&mut text, &mut events, &mut scopes, name, pre, post, &mut nontrivial);
+            }
+            Op::DeclInit(n, m) => {
+                if in_for_body_of == Some(n) {
+                    return None;
+                }
+                // the initializer is resolved before the declared name is bound
+                let init = names[m as usize];
+                let (target, dist) = lookup(&scopes, init);
+                decl(&mut text, &mut events, &mut scopes, names[n as usize], "int ", " = ", &mut nontrivial);
+                let start = text.len();
+                text.push_str(init);
+                let end = text.len();
+                text.push_str(";\n");
+                if n == m || target.is_some() && dist >= 1 {
+                    nontrivial = true;
+                }
+                events.push(Expect { name: init.to_string(), range: (start, end), is_decl: false, target, gate_use: false, typed: false, deep: dist >= 1 });
             }
             Op::Use(n) | Op::Assign(n) | Op::CallGate(n) => {
                 let name = names[n as usize];
@@ -366,7 +389,17 @@ fn walk_block(stmts: &[asg::Stmt], out: &mut Vec<Found>) {
 
 fn walk_stmt(s: &asg::Stmt, out: &mut Vec<Found>) {
     match s {
-        asg::Stmt::DeclareClassical(d) => out.push(Found { res: d.name().clone(), ty: None }),
+        asg::Stmt::DeclareClassical(d) => {
+            out.push(Found { res: d.name().clone(), ty: None });
+            // an initializer that is an identifier (possibly behind casts) is a use
+            let mut e = d.initializer().map(|t| t.expression());
+            while let Some(asg::Expr::Cast(c)) = e {
+                e = Some(c.operand().expression());
+            }
+            if let Some(asg::Expr::Identifier(r)) = e {
+                out.push(Found { res: r.clone(), ty: None });
+            }
+        }
         asg::Stmt::DeclareQuantum(d) => out.push(Found { res: d.name().clone(), ty: None }),
         asg::Stmt::ExprStmt(t) => {
             if let asg::Expr::Identifier(r) = t.expression() {
